@@ -27,6 +27,10 @@ pub struct TickPlan {
     /// the pattern is cleared (the following runs take the empty-pattern path); cancels like a change
     #[serde(default)]
     pub clear_pattern: bool,
+    /// Nucleo::update_config (same configuration) is called after this tick, while the run it may
+    /// have reported as running is wherever the plan left it
+    #[serde(default)]
+    pub update_config: bool,
 }
 
 /// phases at which the run is held between ticks
@@ -61,6 +65,8 @@ struct Shared {
 thread_local! {
     /// ids the current thread is injecting right now (second clause)
     static INJECTING: std::cell::RefCell<Vec<u64>> = const { std::cell::RefCell::new(Vec::new()) };
+    /// notify calls made on this thread, during the current push/extend, that saw all of its items
+    static NOTIFY_OK: std::cell::Cell<u32> = const { std::cell::Cell::new(0) };
 }
 
 fn tick_site(at: u8) -> u32 {
@@ -83,7 +89,7 @@ pub fn single_tick_plans() -> Vec<WakeCase> {
                             if at == 0 && advance_to != 0 {
                                 continue;
                             }
-                            v.push(WakeCase { threads: 1, items: 30, first_by_pattern, first_hold, ticks: vec![TickPlan { timeout, change_pattern, more_items: false, at, advance_to, hold_next: 2, clear_pattern: false }], push_threads: 1, push_batches: vec![1, 3], empty_pattern: false, inflight_first: false, final_tick: false });
+                            v.push(WakeCase { threads: 1, items: 30, first_by_pattern, first_hold, ticks: vec![TickPlan { timeout, change_pattern, more_items: false, at, advance_to, hold_next: 2, clear_pattern: false, update_config: false }], push_threads: 1, push_batches: vec![1, 3], empty_pattern: false, inflight_first: false, final_tick: false });
                         }
                     }
                 }
@@ -94,8 +100,8 @@ pub fn single_tick_plans() -> Vec<WakeCase> {
     for empty_pattern in [true, false] {
         for first_hold in 0..4u8 {
             for threads in [1u8, 2] {
-                v.push(WakeCase { threads, items: 12, first_by_pattern: false, first_hold, ticks: vec![TickPlan { timeout: 0, change_pattern: false, more_items: false, at: 0, advance_to: 0, hold_next: 2, clear_pattern: false }], push_threads: 1, push_batches: vec![], empty_pattern, inflight_first: true, final_tick: true });
-                v.push(WakeCase { threads, items: 12, first_by_pattern: true, first_hold, ticks: vec![TickPlan { timeout: 1, change_pattern: false, more_items: true, at: 3, advance_to: 2, hold_next: 1, clear_pattern: false }], push_threads: 1, push_batches: vec![2], empty_pattern, inflight_first: false, final_tick: true });
+                v.push(WakeCase { threads, items: 12, first_by_pattern: false, first_hold, ticks: vec![TickPlan { timeout: 0, change_pattern: false, more_items: false, at: 0, advance_to: 0, hold_next: 2, clear_pattern: false, update_config: false }], push_threads: 1, push_batches: vec![], empty_pattern, inflight_first: true, final_tick: true });
+                v.push(WakeCase { threads, items: 12, first_by_pattern: true, first_hold, ticks: vec![TickPlan { timeout: 1, change_pattern: false, more_items: true, at: 3, advance_to: 2, hold_next: 1, clear_pattern: false, update_config: false }], push_threads: 1, push_batches: vec![2], empty_pattern, inflight_first: false, final_tick: true });
             }
         }
     }
@@ -110,7 +116,7 @@ pub fn single_tick_plans() -> Vec<WakeCase> {
                             items: 40,
                             first_by_pattern: false,
                             first_hold,
-                            ticks: vec![TickPlan { timeout: 0, change_pattern: false, more_items, at: 0, advance_to: 0, hold_next, clear_pattern: true }, TickPlan { timeout, change_pattern: false, more_items: false, at, advance_to, hold_next: 2, clear_pattern: false }],
+                            ticks: vec![TickPlan { timeout: 0, change_pattern: false, more_items, at: 0, advance_to: 0, hold_next, clear_pattern: true, update_config: false }, TickPlan { timeout, change_pattern: false, more_items: false, at, advance_to, hold_next: 2, clear_pattern: false, update_config: false }],
                             push_threads: 1,
                             push_batches: vec![],
                             empty_pattern: false,
@@ -119,6 +125,14 @@ pub fn single_tick_plans() -> Vec<WakeCase> {
                         });
                     }
                 }
+            }
+        }
+    }
+    // update_config while the promised run is held in each phase
+    for first_by_pattern in [false, true] {
+        for first_hold in 0..5u8 {
+            for timeout in [0u8, 1] {
+                v.push(WakeCase { threads: 1, items: 60, first_by_pattern, first_hold, ticks: vec![TickPlan { timeout, change_pattern: false, more_items: false, at: 0, advance_to: 0, hold_next: 2, clear_pattern: false, update_config: true }], push_threads: 1, push_batches: vec![], empty_pattern: false, inflight_first: false, final_tick: false });
             }
         }
     }
@@ -137,7 +151,7 @@ impl Check for C13 {
         400
     }
     fn rule(&self) -> String {
-        "two-party schedules between the ticking thread and the background run, owned by the driver through hook points: the run is held at RUN_AFTER_SCAN / RUN_AFTER_SORT / RUN_BEFORE_NOTIFY_READ / RUN_AFTER_NOTIFY / RUN_JOB_DONE (the spawned job after its late flag check, before it returns); each subject tick (timeout 0|1, with or without a pattern change, a cleared pattern - a cancelled run followed by empty-pattern runs - or new items) moves the run at TICK_AFTER_CLEAR / TICK_TRYLOCK_FAILED / TICK_AFTER_REARM past its flag read (lock still held) or to completion. All single-tick plans (400) and 200 'cancel by clearing the pattern, then tick' plans are enumerated as templates in every run; 2-3 tick plans are sampled. Oracle: notification ledger vs run-completion events: for every tick that returned running=true and whose run was not cancelled later, at least one notify call happened after that tick began and not before the run's results were available (RUN_AFTER_SORT). Second clause: inside the notify call made by a push/extend every item of that call is visible through get (1-3 injector threads). Non-trivial: the run passes its flag read while the tick is between clearing and re-arming the flag.".into()
+        "two-party schedules between the ticking thread and the background run, owned by the driver through hook points: the run is held at RUN_AFTER_SCAN / RUN_AFTER_SORT / RUN_BEFORE_NOTIFY_READ / RUN_AFTER_NOTIFY / RUN_JOB_DONE (the spawned job after its late flag check, before it returns); each subject tick (timeout 0|1, with or without a pattern change, a cleared pattern - a cancelled run followed by empty-pattern runs - or new items; optionally followed by update_config) moves the run at TICK_AFTER_CLEAR / TICK_TRYLOCK_FAILED / TICK_AFTER_REARM past its flag read (lock still held) or to completion. All single-tick plans (400) and 200 'cancel by clearing the pattern, then tick' plans are enumerated as templates in every run; 2-3 tick plans are sampled. Oracle: notification ledger vs run-completion events: for every tick that returned running=true and whose run was not cancelled later, at least one notify call happened after that tick began and not before the run's results were available (RUN_AFTER_SORT). Second clause: every push/extend call makes at least one notify call on its own thread during which every item of that call is visible through get (1-3 injector threads; with >= 2 threads one push is held inside its fill callback until a push of another thread that reserved a later index has completed). Non-trivial: the run passes its flag read while the tick is between clearing and re-arming the flag.".into()
     }
     fn assumptions(&self) -> Vec<String> {
         vec!["'eventually' is checked as 'by the time the run has ended and nothing is left running' (bounded history)".into(), "sequentially consistent schedules at hook-point granularity".into()]
@@ -152,7 +166,7 @@ impl Check for C13 {
         single_tick_plans()
     }
     fn strategy(&self, _tier: Tier) -> BoxedStrategy<WakeCase> {
-        let plan = (0u8..2, proptest::bool::weighted(0.3), proptest::bool::weighted(0.3), 0u8..4, 0u8..3, 0u8..5, proptest::bool::weighted(0.15)).prop_map(|(timeout, change_pattern, more_items, at, advance_to, hold_next, clear_pattern)| TickPlan { timeout, change_pattern: change_pattern && !clear_pattern, more_items, at, advance_to, hold_next, clear_pattern });
+        let plan = (0u8..2, proptest::bool::weighted(0.3), proptest::bool::weighted(0.3), 0u8..4, 0u8..3, 0u8..5, proptest::bool::weighted(0.15), proptest::bool::weighted(0.12)).prop_map(|(timeout, change_pattern, more_items, at, advance_to, hold_next, clear_pattern, update_config)| TickPlan { timeout, change_pattern: change_pattern && !clear_pattern, more_items, at, advance_to, hold_next, clear_pattern, update_config });
         (1u8..=3, 1u16..200, any::<bool>(), 0u8..5, proptest::collection::vec(plan, 1..=3), 1u8..=3, proptest::collection::vec(1u8..40, 0..=4), (proptest::bool::weighted(0.3), proptest::bool::weighted(0.35), proptest::bool::weighted(0.5)))
             .prop_map(|(threads, items, first_by_pattern, first_hold, ticks, push_threads, push_batches, (empty_pattern, inflight_first, final_tick))| WakeCase { threads, items, first_by_pattern, first_hold, ticks, push_threads, push_batches, empty_pattern, inflight_first, final_tick })
             .boxed()
@@ -181,6 +195,8 @@ impl Check for C13 {
                     }
                     if found != ids.len() {
                         *vf.lock() = Some(format!("notify was called by a push/extend of {} items but only {found} of them are visible through get", ids.len()));
+                    } else {
+                        NOTIFY_OK.with(|n| n.set(n.get() + 1));
                     }
                 }
             }
@@ -322,6 +338,13 @@ impl Check for C13 {
                     inconclusive = { if std::env::var("C13_DEBUG").is_ok() { eprintln!("timeout at line {}", line!()); } true };
                 }
             }
+            if p.update_config && !inconclusive {
+                // blocks until the run in progress is done: nothing is held meanwhile
+                gate::begin_blocking();
+                nuc.update_config(Config::DEFAULT);
+                gate::end_blocking();
+                out.label("update-config-after-tick");
+            }
         }
         // ---- quiescence ----------------------------------------------------------------------
         gate::release_run();
@@ -355,28 +378,68 @@ impl Check for C13 {
         if fail.is_none() && !inconclusive && !c.push_batches.is_empty() {
             let nthreads = c.push_threads.max(1) as usize;
             let mut handles = vec![];
+            let in_fill = Arc::new(std::sync::atomic::AtomicBool::new(false));
+            let other_done = Arc::new(std::sync::atomic::AtomicBool::new(false));
+            let silent: Arc<Mutex<Option<String>>> = Arc::new(Mutex::new(None));
             for t in 0..nthreads {
                 let inj = inj.clone();
                 let batches = c.push_batches.clone();
                 let base = 1_000_000 * (t as u64 + 1);
+                let (in_fill, other_done, silent) = (in_fill.clone(), other_done.clone(), silent.clone());
                 handles.push(std::thread::spawn(move || {
+                    use std::sync::atomic::Ordering::SeqCst;
+                    let wait = |f: &std::sync::atomic::AtomicBool| {
+                        let t0 = std::time::Instant::now();
+                        while !f.load(SeqCst) && t0.elapsed() < std::time::Duration::from_millis(300) {
+                            std::thread::sleep(std::time::Duration::from_micros(100));
+                        }
+                    };
+                    let owed = |what: &str| {
+                        if NOTIFY_OK.with(|n| n.get()) == 0 {
+                            silent.lock().get_or_insert(format!("{what} returned without having called notify after its items were visible"));
+                        }
+                        NOTIFY_OK.with(|n| n.set(0));
+                    };
+                    if nthreads >= 2 && t == 0 {
+                        // this push reserves its index first and completes after a push of thread 1 that reserved later
+                        INJECTING.with(|i| *i.borrow_mut() = vec![base + 999]);
+                        NOTIFY_OK.with(|n| n.set(0));
+                        inj.push(base + 999, |_, cols| {
+                            cols[0] = "ab".into();
+                            in_fill.store(true, SeqCst);
+                            wait(&other_done);
+                        });
+                        owed("a push that completed after a later-reserved push of another thread");
+                        INJECTING.with(|i| i.borrow_mut().clear());
+                    }
+                    if nthreads >= 2 && t == 1 {
+                        wait(&in_fill);
+                    }
                     let mut id = base;
                     for (k, &n) in batches.iter().enumerate() {
                         let ids: Vec<u64> = (0..n.max(1) as u64).map(|j| id + j).collect();
                         id += 1000;
                         INJECTING.with(|i| *i.borrow_mut() = ids.clone());
+                        NOTIFY_OK.with(|n| n.set(0));
                         if n <= 1 || k % 2 == 0 && n < 3 {
                             INJECTING.with(|i| *i.borrow_mut() = vec![ids[0]]);
                             inj.push(ids[0], |_, cols| cols[0] = "ab".into());
+                            owed("push");
                             if ids.len() > 1 {
                                 INJECTING.with(|i| *i.borrow_mut() = ids[1..].to_vec());
                                 inj.extend(ids[1..].to_vec().into_iter(), |_, cols| cols[0] = "b".into());
+                                owed("extend");
                             }
                         } else {
                             inj.extend(ids.clone().into_iter(), |_, cols| cols[0] = "ab".into());
+                            owed("extend");
                         }
                         INJECTING.with(|i| i.borrow_mut().clear());
+                        if t == 1 {
+                            other_done.store(true, SeqCst);
+                        }
                     }
+                    other_done.store(true, SeqCst);
                 }));
             }
             for h in handles {
@@ -385,6 +448,11 @@ impl Check for C13 {
             out.label("push-notify-clause");
             if let Some(m) = visible_fail.lock().clone() {
                 fail = Some(("notify-before-items-visible".into(), m));
+            } else if let Some(m) = silent.lock().clone() {
+                fail = Some(("push-without-notify".into(), m));
+            }
+            if nthreads >= 2 {
+                out.label("push-completing-after-a-later-reserved-push");
             }
         }
         if inconclusive {
@@ -481,7 +549,14 @@ fn judge(log: &[Event], ticks: &[(u64, u64, bool, bool)], out: &mut Outcome) -> 
         }
         let (sorted_seq, cancelled) = run.sorted.unwrap_or((run.start, false));
         if cancelled {
-            continue;
+            if ticks[k].3 {
+                // the cancelling tick itself: the run found is the predecessor it cancelled
+                continue;
+            }
+            // Runs are strictly sequential (the spawning tick hands its lock guard to the job), so the
+            // run promised by the last tick is the last one spawned; only a later cancelling tick
+            // (there is none) could have cancelled it.
+            return Some(("promised-run-cancelled-without-successor".into(), format!("tick #{k} returned running=true, the run it was waiting for was cancelled (RUN_AFTER_SORT seq {sorted_seq}) although no later tick changed the pattern, and nothing was spawned in its place: its results never arrive and no notification is owed by anyone")));
         }
         // tick window events
         let clear = log.iter().find(|e| e.site == site::TICK_AFTER_CLEAR && e.seq > begin && e.seq < end).map(|e| e.seq);
